@@ -66,6 +66,64 @@ SEEDS = {
     "C20-stop-no-wait": dict(wt="/tmp/mut/C20", prop="C20", demo_pkg="metric_registry/gometrics", run="go test -vet=off -count=1 -run TestDemoC20 ./metric_registry/...",
         what="the registries drop the WaitGroup: Stop only puts a token into the (buffered) stopper channel",
         needs="Stop called while a poll is in progress (or with a tick due): gauges are still polled and forwarded after Stop has returned"),
+    # ---- round 2 (a second set of fresh sub-agents, asked for a mechanism / clause different from round 1) ----
+    "C01r2-acquire-rlock": dict(wt="/tmp/mut2/C01", prop="C01", demo_pkg="limiter", run="go test -vet=off -count=1 -tags verif -run TestMutantC01 ./limiter/",
+        what="DefaultLimiter.Acquire takes the read lock, so the strategy's check and increment are no longer one critical section for a simple strategy",
+        needs="two Acquire calls between the strategy's check and its increment (the verif gate simple.afterCheck, or a loaded scheduler)"),
+    "C02r2-release-by-name": dict(wt="/tmp/mut2/C02", prop="C02", demo_pkg="strategy", run="go test -vet=off -count=1 -run TestC02Mutant ./strategy/",
+        what="the lookup strategy's release closure re-resolves the bin by name at release time instead of capturing the bin it charged",
+        needs="a partition replaced (AddPartition on an existing name) or removed while one of its tokens is out"),
+    "C03r2-release-by-name": dict(wt="/tmp/mut2/C03", prop="C03", demo_pkg="strategy", run="go test -vet=off -count=1 -run TestC03Demo ./strategy/",
+        what="same family as C02r2, produced independently: release resolves the key again (unknown bin / re-added bin credited or debited wrongly)",
+        needs="a token released after its key was removed, re-added, or registered for the first time"),
+    "C04r2-probe-drops-minimum": dict(wt="/tmp/mut2/C04", prop="C04", demo_pkg="limit", run="go test -vet=off -count=1 -run TestC04Demo ./limit/",
+        what="the Gradient probe resets the estimate to max(queueSize, estimate/2), dropping the configured minimum",
+        needs="a probe firing while estimate/2 and the queue allowance are both below the minimum"),
+    "C05r2-add-unchanged-shortcut": dict(wt="/tmp/mut2/C05", prop="C05", demo_pkg="limiter", run="go test -vet=off -count=1 -run TestC05Mutant ./limiter/",
+        what="AddPartition goes through an applyLimit helper that returns early when the total limit is unchanged",
+        needs="a partition added after the first SetLimit: its bin keeps the limit it was built with"),
+    "C06r2-stale-queue-allowance": dict(wt="/tmp/mut2/C06", prop="C06", demo_pkg="limit", run="go test -vet=off -count=1 -run TestC06Gradient ./limit/",
+        what="Gradient caches queueSizeFunc(limit) and refreshes it only when the integer limit changes through the normal path; the probe branch bypasses the refresh",
+        needs="a non-constant queue function, a probe at a large estimate, then drops: pinned at the stale allowance, never reaching the floor"),
+    "C07r2-aimd-check-then-act": dict(wt="/tmp/mut2/C07", prop="C07", demo_pkg="limit", run="go test -vet=off -count=1 -run TestC07Mutant ./limit/",
+        what="AIMD decides 'saturated' under the read lock, emits metrics unlocked, then applies the increment under the write lock without re-checking",
+        needs="two overlapping OnSample calls at in-flight = limit: both increments land (12 instead of 11)"),
+    "C08r2-vegas-stale-completion": dict(wt="/tmp/mut2/C08", prop="C08", demo_pkg="limit", run="go test -vet=off -count=1 -run TestC08Vegas ./limit/",
+        what="Vegas ignores a sample whose startTime+rtt is before the completion time of the sample the estimate was last derived from",
+        needs="non-zero start times and a final sample whose lower RTT completes before, and higher RTT after, that moment, the higher one still in the increase zone"),
+    "C09r2-first-sample-fastpath": dict(wt="/tmp/mut2/C09", prop="C09", demo_pkg="limiter", run="go test -vet=off -count=1 -run TestC09Demo ./limiter/",
+        what="ImmutableSampleWindow.AddSample builds a fresh window when sampleCount == 0, erasing drops (and their in-flight) recorded before the first success",
+        needs="a drop that opens a window followed by a success in the same window"),
+    "C10r2-dead-head-stops-handoff": dict(wt="/tmp/mut2/C10", prop="C10", demo_pkg="limiter", run="go test -vet=off -count=1 -run TestC10MutantDemo ./limiter/",
+        what="unblock() evicts a head-of-line waiter whose context is done and returns without serving the next one",
+        needs="two queued callers, the next in line cancelled (BacklogEvictDoneCtx off, or cancellation racing the release), then a completion"),
+    "C11r2-default-size-fallthrough": dict(wt="/tmp/mut2/C11", prop="C11", demo_pkg="limiter", run="go test -vet=off -count=1 -run TestMutantC11 ./limiter/ ./patterns/pool/",
+        what="ApplyDefaults becomes a switch whose backlog-size case falls through into the ordering default: FIFO + default size silently becomes LIFO",
+        needs="a FIFO limiter or pool built with MaxBacklogSize <= 0"),
+    "C12r2-tryacquire-rlock": dict(wt="/tmp/mut2/C12", prop="C12", demo_pkg="limiter", run="go test -vet=off -count=1 -run TestDemoBacklogBound ./limiter/",
+        what="the queue limiter's attempt + length check + push runs under the read lock",
+        needs="arrivals racing at a backlog one below its maximum: all pass the length check before any pushes"),
+    "C13r2-skip-ctx-done": dict(wt="/tmp/mut2/C13", prop="C13", demo_pkg="limiter", run="go1.26.8 test -vet=off -count=1 -run TestDemoC13 ./limiter/",
+        what="the queue limiter does not select on ctx.Done() when the context's deadline is not earlier than the backlog timeout",
+        needs="a context with a far deadline that is cancelled explicitly while queued (BacklogEvictDoneCtx on)"),
+    "C14r2-per-stream-token-slot": dict(wt="/tmp/mut2/C14", prop="C14", demo_pkg="grpc", run="go test -vet=off -count=1 -run TestC14Stream ./grpc/",
+        what="RecvMsg/SendMsg are refactored into begin/end helpers that park the acquired listener in one field of the per-stream wrapper",
+        needs="a RecvMsg and a SendMsg overlapping on the same stream (full duplex): one token is never completed or is completed with the other direction's classification"),
+    "C15r2-no-reset-at-floor": dict(wt="/tmp/mut2/C15", prop="C15", demo_pkg="limit", run="go test -vet=off -count=1 -run TestC15Gradient ./limit/",
+        what="the Gradient probe is skipped while the estimate sits at its floor",
+        needs="an estimate pinned at the floor (sustained drops or a high RTT): the baseline is never refreshed within the bound"),
+    "C16r2-windowed-cached-estimate": dict(wt="/tmp/mut2/C16", prop="C16", demo_pkg="limit", run="go test -vet=off -count=1 -run TestDemoC16 ./limit/",
+        what="WindowedLimit.EstimatedLimit returns a value cached at construction and at each window close",
+        needs="the delegate's estimate moving without the wrapper (explicit set, delegate sampled directly)"),
+    "C18r2-expavg-update-unlocked": dict(wt="/tmp/mut2/C18", prop="C18", demo_pkg="measurements", run="go test -vet=off -count=1 -run TestDemoC18 ./measurements/",
+        what="ExponentialAverageMeasurement.Update reads under the read lock, runs the operation unlocked, then stores",
+        needs="an Add, Reset or Update overlapping the Update's operation: its effect is lost"),
+    "C19r2-signal-not-broadcast": dict(wt="/tmp/mut2/C19", prop="C19", demo_pkg="patterns/pool", run="go test -vet=off -count=1 -run TestC19Demo ./patterns/pool/",
+        what="DelegateListener.unblock wakes with Signal instead of Broadcast; stale helper goroutines absorb the wake-up",
+        needs="a stale helper (re-check succeeded, cancelled or timed-out waiter) parked ahead of a live waiter at a release"),
+    "C20r2-vegas-probe-no-metrics": dict(wt="/tmp/mut2/C20", prop="C20", demo_pkg="limit", run="go test -vet=off -count=1 -run TestC20Vegas ./limit/",
+        what="Vegas calls commonSampler.Sample after the probe branch: probe samples emit no RTT / in-flight / drop metrics",
+        needs="a sample that is a baseline probe"),
 }
 
 
